@@ -1065,7 +1065,9 @@ func (c *Cluster) expirer() {
 		now := time.Now()
 		var due []int64
 		for id, l := range c.leases {
-			exp := l.expiry.Add(c.Faults.LeaseLag)
+			// a lease lives at least its full TTL on the server: it expires strictly after, never at, the instant a
+			// client that measured from its request start still considers it valid (real etcd checks every 500ms)
+			exp := l.expiry.Add(c.Faults.LeaseLag).Add(time.Nanosecond)
 			if !exp.After(now) {
 				due = append(due, id)
 			} else if next.IsZero() || exp.Before(next) {
